@@ -13,6 +13,7 @@ import Driver.C20
 import Driver.C12
 import Driver.C19
 import Driver.C11
+import Driver.C07
 
 def main (args : List String) : IO UInt32 := do
   match args with
@@ -31,4 +32,5 @@ def main (args : List String) : IO UInt32 := do
   | "C12" :: rest => DriverC12.main rest; return 0
   | "C19" :: rest => DriverC19.main rest; return 0
   | "C11" :: rest => DriverC11.main rest; return 0
+  | "C07" :: rest => DriverC07.main rest; return 0
   | _ => IO.eprintln "usage: gvdriver <Cxx> [mode] < history"; return 2
